@@ -403,7 +403,7 @@ Definition exec (c : cfg) (o : op) : M world (N * list N) :=
                | Fault f => Fault f
                end
   | OWithCapacity dst bk n =>
-      fun w => match (mem_build c bk;; on_unwind (mem_resize c n) (mem_drop c))
+      fun w => match (mem_build c bk;; unwinding_st (mem_resize c n) (mem_drop c))
                        ({| vlen := 0; vcap := 0; vmem := []; vgen := 0; vbk := bk |}, wuw w) with
                | Ok _ (v, u) => Ok (0, []) (put_vec dst (Some v) u w)
                | Panic p (_, u) => Panic p {| wv := wv w; wuw := u |}
